@@ -45,7 +45,8 @@ def bail(msg):
 # ----------------------------------------------------------------------------------------------
 
 def model_classes():
-    from bqskit.ir.gates import CNOTGate, CZGate, U3Gate, HGate, TGate, RZGate, SXGate, CCXGate
+    from bqskit.ir.gates import (CNOTGate, CZGate, U3Gate, HGate, TGate, RZGate, SXGate, CCXGate, RXGate, RYGate, U1Gate,
+                                 U1qPiGate, U1qPi2Gate)
     return {
         # name: (gate set or None, coupling 'all'|'line', extra machine qudits)
         'default': (None, 'all', 0),                       # all-to-all, CNOT + U3
@@ -57,7 +58,17 @@ def model_classes():
         'czu3': ({CZGate(), U3Gate()}, 'line', 0),         # non-CNOT entangler + general SQ gate
         'czzx': ({CZGate(), RZGate(), SXGate()}, 'line', 0),
         'ccx': ({CCXGate(), CNOTGate(), U3Gate()}, 'line', 0),    # 3-qudit entangler in the gate set
+        # gate sets that make ZXGatePredicate = (RZ | U1) & (SX | RX) take both values on every operand
+        'rzonly': ({CNOTGate(), RZGate()}, 'line', 0),
+        'rxonly': ({CNOTGate(), RXGate()}, 'line', 0),
+        'u1rx': ({CNOTGate(), U1Gate(), RXGate()}, 'line', 0),
+        'u1sx': ({CNOTGate(), U1Gate(), SXGate()}, 'line', 0),
+        'rzry': ({CNOTGate(), RZGate(), RYGate()}, 'line', 0),   # vendor-like: no general gate, no SX / RX
+        'h1like': ({CNOTGate(), RZGate(), U1qPiGate, U1qPi2Gate}, 'line', 0),   # Quantinuum-like single-qudit gates
     }
+
+
+ZX_CLASSES = ('rzonly', 'rxonly', 'u1rx', 'u1sx', 'rzry', 'h1like')
 
 
 def configs():
@@ -70,12 +81,14 @@ def configs():
             for err in (0, 8, 3):
                 if err == 3 and mc not in ('default', 'zx', 'nosq'):
                     continue
+                if err != 0 and mc in ZX_CLASSES:
+                    continue
                 out.append((f'circ_l{lvl}_e{err}_s0_{mc}', 'circuit', lvl, err, False, mc, 3))
         out.append((f'circ_l{lvl}_e0_s1_default', 'circuit', lvl, 0, True, 'default', 3))
     for kind in ('unitary', 'state', 'system'):
         for lvl in (1, 2, 3, 4):
             for w in (1, 2, 3):
-                for mc in ('default', 'zx', 'czu3', 'constsq', 'ccx'):
+                for mc in ('default', 'zx', 'czu3', 'constsq', 'ccx') + (('rzry', 'u1rx') if kind == 'unitary' and w == 2 else ()):
                     if mc == 'ccx' and w < 3:
                         continue        # compile() rejects: no native gate fits
                     if kind != 'unitary' and mc == 'constsq':
@@ -444,6 +457,9 @@ class Walker:
 
 
 def cfg_constants(model) -> dict:
+    """What the model-only predicates answer for `model`: the LIVE predicate code is called.  `zx_native` is not a
+    predicate: it says whether the gates ZXZXZDecomposition emits for this gate set are native, read off the gate set
+    independently of ZXGatePredicate (the leaf contract must not trust the predicate that selects the leaf)."""
     from bqskit.ir.circuit import Circuit
     from bqskit.compiler.passdata import PassData
     from bqskit.passes.control.predicates.many import ManyQuditGatesPredicate
@@ -459,7 +475,41 @@ def cfg_constants(model) -> dict:
         zx_model=bool(ZXGatePredicate().get_truth_value(c, d)),
         allconst=bool(AllConstantSingleQuditGates().get_truth_value(c, d)),
         gsn=bool(model.gate_set.get_general_sq_gate() in model.gate_set),
+        zx_native=independent_constants(model)['zx_model'],
     )
+
+
+def independent_constants(model) -> dict:
+    """The documented meaning of the model-only predicates, computed from the gate list WITHOUT the predicate classes
+    (gate names / arities / parameter counts only)."""
+    from bqskit.ir.gates.generalgate import GeneralGate
+    gates = list(model.gate_set)
+    sq = [g for g in gates if g.num_qudits == 1]
+    names = {type(g).__name__ if g.name not in ('RZ', 'RX', 'U1', 'SX') else g.name for g in sq}
+    names |= {g.name for g in sq}
+
+    def has(*ns):
+        return any(n in names for n in ns)
+    return dict(
+        many_model=any(g.num_qudits > 2 for g in gates),
+        nosq_model=len(sq) == 0,
+        has_gen=any(isinstance(g, GeneralGate) for g in sq),
+        zx_model=(has('RZ', 'RZGate') or has('U1', 'U1Gate')) and (has('SX', 'SqrtXGate', 'SXGate') or has('RX', 'RXGate')),
+        allconst=all(g.num_params == 0 for g in sq),
+    )
+
+
+def constant_disagreements() -> list[dict]:
+    """Model classes for which a live predicate disagrees with its documented meaning (each one is a concrete gate set)."""
+    out = []
+    for mc in model_classes():
+        m = build_model(mc, 3)
+        live, ind = cfg_constants(m), independent_constants(m)
+        for k, v in ind.items():
+            if live[k] != v:
+                out.append(dict(model=mc, predicate=k, live=live[k], documented=v,
+                                gates=sorted(g.name for g in m.gate_set)))
+    return out
 
 
 def generate():
